@@ -542,4 +542,76 @@ theorem f64IntVal_f64OfNat (m : Nat) (h : m < 2 ^ 53) : f64IntVal (f64OfNat m) =
     have e8 : 1075 - (l + 1022) = 53 - l := by omega
     simp [e7, e8, hmod, hdiv]
 
+/-! ## sessions (results that stay alive while later calls run) -/
+
+theorem runSpec_append (st : Store) (a b : List Call) :
+    runSpec st (a ++ b) = runSpec (runSpec st a) b := by
+  induction a generalizing st with
+  | nil => rfl
+  | cons c r ih => simp [runSpec, ih]
+
+theorem runSpec_extends (st : Store) (cs : List Call) : ∃ ext, runSpec st cs = st ++ ext := by
+  induction cs generalizing st with
+  | nil => exact ⟨[], by simp [runSpec]⟩
+  | cons c r ih =>
+    obtain ⟨ext, h⟩ := ih (st ++ [c.eval st])
+    exact ⟨c.eval st :: ext, by simp [runSpec, h]⟩
+
+theorem Mem.read_eq (m : Mem) (i : Nat) : m.read i = m.observe.getD i none := by
+  unfold Mem.read Mem.observe
+  by_cases h : i < m.slots.length
+  · simp [List.getD, h]
+  · simp [List.getD, h]
+
+theorem observe_grow (h : Heap) (b : Bytes) (slots : List (Option Nat))
+    (wf : ∀ k, some k ∈ slots → k < h.length) :
+    slots.map (fun r => r.bind ((h ++ [b])[·]?)) = slots.map (fun r => r.bind (h[·]?)) := by
+  apply List.map_congr_left
+  intro r hr
+  cases r with
+  | none => rfl
+  | some k =>
+    have := wf k hr
+    simp [List.getElem?_append_left this]
+
+theorem step_fresh (m : Mem) (wf : m.WF) (c : Call) :
+    (m.step fresh c).WF ∧ (m.step fresh c).observe = m.observe ++ [c.eval m.observe] := by
+  have grow : ∀ b, ({ heap := m.heap ++ [b], slots := m.slots ++ [some m.heap.length] } : Mem).WF ∧
+      ({ heap := m.heap ++ [b], slots := m.slots ++ [some m.heap.length] } : Mem).observe = m.observe ++ [some b] := by
+    intro b
+    constructor
+    · intro k hk
+      simp only [List.mem_append, List.mem_singleton, Option.some.injEq] at hk
+      rcases hk with hk | hk
+      · have := wf k hk; simp; omega
+      · simp [hk]
+    · simp only [Mem.observe, List.map_append, observe_grow m.heap b m.slots wf]
+      simp
+  cases c with
+  | lit b => exact grow b
+  | app f src =>
+    simp only [Mem.step, Call.eval, ← Mem.read_eq]
+    cases hres : (m.read src).bind f with
+    | none =>
+      constructor
+      · intro k hk
+        simp only [List.mem_append, List.mem_singleton] at hk
+        rcases hk with hk | hk
+        · exact wf k hk
+        · cases hk
+      · simp [Mem.observe]
+    | some b =>
+      have : writeCell m.heap (fresh m.heap) b = (m.heap ++ [b], m.heap.length) := by
+        simp [writeCell, fresh]
+      simp only [this]
+      exact grow b
+
+theorem runImpl_fresh (m : Mem) (wf : m.WF) (cs : List Call) :
+    (runImpl fresh m cs).observe = runSpec m.observe cs := by
+  induction cs generalizing m with
+  | nil => rfl
+  | cons c r ih =>
+    obtain ⟨wf', ho⟩ := step_fresh m wf c
+    simp only [runImpl, runSpec, ih _ wf', ho]
+
 end Risor.C19
